@@ -167,11 +167,15 @@ class ProcessExecutor:
     def submit(self, fn: Callable, /, *args, **kwargs) -> Future:
         """Schedule the given fn to be called with the given *args and
         **kwargs, and return a Future that will be updated with the
-        outcome of function call."""
+        outcome of function call. The call is started by the next call
+        to start_processes() or wait()."""
         future = Future()
         self._pending_future_to_thunk[future] = functools.partial(fn, *args, **kwargs)
-        self._start_processes()
         return future
+
+    def start_processes(self) -> None:
+        """Start processes for pending futures while workers are free."""
+        self._start_processes()
 
     def cancel(self) -> None:
         """Cancel all pending futures."""
@@ -393,6 +397,10 @@ class ProcessRunner(Runner, ABC):
             log_queue=self.log_queue,
         )
         self.future_to_task[future] = task
+        # Only start processes once the future is tracked, so that a
+        # task process started just before an interrupt is still waited
+        # for (or stopped) by the interrupt handling.
+        self.executor.start_processes()
 
     def wait(self, *, timeout_seconds: Optional[float]) -> Iterator[tuple[Task, ResultMeta | BaseException]]:
         self._consume_log_queue()
